@@ -373,6 +373,17 @@ pub fn check_rank(map: &MapSel) -> CheckResult {
         for (name, target) in [("result = 0", 0u64), ("result = all ones", u64::MAX), ("result = 1", 1)] {
             specials.push((name, a.solve(&to_bits(f0 ^ target)).map(|x| x.0[0])));
         }
+        // whole collections: the inputs for which the pool is 0 / all ones at an intermediate
+        // stage (after the first folds, before and after the stir), solved through the documented
+        // procedure; the real map must follow its own affine rule there as well
+        if let MapSel::Collect { prog, rounds } = map {
+            let sc = prog.script();
+            for (name, stage) in [("pool = 0 / ~0 before the stir", usize::MAX - 1), ("pool = 0 / ~0 before the last rotation", usize::MAX - 2), ("pool = 0 / ~0 after the first fold", 0usize), ("pool = 0 / ~0 after the first rotation", 1usize)] {
+                for want in [0u64, u64::MAX] {
+                    specials.push((name, crate::refmodel::jitter::pool_for_stage(&sc, 0, *rounds as u32, stage, want, 2_000_000)));
+                }
+            }
+        }
         for (name, x) in specials {
             let Some(x) = x else { continue };
             let pred = (0..64).filter(|i| (x >> i) & 1 == 1).fold(f0, |acc, i| acc ^ cols[i]);
